@@ -89,7 +89,7 @@ def judge(ctx):
 CFG = G.cfg(blocks=("cross", "cross", "multi", "repeat", "merge", "nest"))
 P = D.DesignProperty(
     "C07", judge,
-    rule=("case = generated design spec accepted by the constructor and by both samplers; both are exhausted; non-trivial = "
+    rule=("case = generated design spec accepted by the constructor and by both samplers; both are exhausted (designs too large for that: 6 RandomGen sequences are checked for membership in the formula); non-trivial = "
           "both sets have >= 2 sequences and the design has a derived factor or a constraint; distinct = distinct spec JSON"),
     cfg_quick=CFG, n_quick=80, n_thorough=1500, case_limit=(25, 180),
     limits={"max_T": {"quick": 7, "thorough": 9}, "max_seqs": {"quick": 300, "thorough": 2500},
